@@ -494,6 +494,9 @@ def enumerate_dml():
         for iname, i in ins:
             yield (f"merge/{sn}/ins_{iname}", ["merge", ["s2", "tgt"], "x", src, on, [], [i]])
         yield (f"merge/{sn}/both", ["merge", ["tgt"], "x", src, on, [ups[1][1]], [ins[0][1]]])
+        # two WHEN NOT MATCHED clauses whose column lists differ in order and content: each clause pairs ITS values with ITS columns
+        yield (f"merge/{sn}/two_ins", ["merge", ["tgt"], "x", src, on, [],
+                                       [[[["a"], ["b"]], [col("a", q), col("b", q)]], [[["b"], ["c"], ["a"]], [col("c", q), col("a", q), col("b", q)]]]])
     froms = [
         ("none", []),
         ("one", [from_expr(table("src", "s1", "y"))]),
